@@ -24,30 +24,42 @@ variable {α : Type} [CommRing α] [StarRing α] (ofRat : Rat → α)
 /-- the `oshape` attribute of an operator object: the output shape of what it denotes -/
 def oshOf (l : Leaf α) : List Int := ((leafSem0 star ofRat l).map Sem.osh).getD []
 
-/-- the generated `if` test of `_get_multiply_adjoint_sum_axes` is `i == 1 and (m != 1 or o != 1)` — proved by
-    cases on the three comparisons, so any propositionally equivalent spelling of the test is accepted -/
-theorem multiplySumTest_spec (i m o d : Int) :
-    Gen.LinopAdjoint.multiplySumTest i m o d = decide (i = 1 ∧ (m ≠ 1 ∨ o ≠ 1)) := by
+/-- the generated `if` test of `_get_multiply_adjoint_sum_axes`, on the output extents that occur
+    (`o = max(i, m)`, the broadcast of input and multiplier), is `i == 1 and (m != 1 or o != 1)` — proved by
+    cases on the comparisons, so every spelling of the test that is equivalent on broadcast shapes is
+    accepted (e.g. `i == 1 and m != 1`, reordered conjuncts, De Morgan forms) -/
+theorem multiplySumTest_spec (i m d : Int) :
+    Gen.LinopAdjoint.multiplySumTest i m (max i m) d = decide (i = 1 ∧ (m ≠ 1 ∨ max i m ≠ 1)) := by
   unfold Gen.LinopAdjoint.multiplySumTest
-  by_cases h1 : i = 1 <;> by_cases h2 : m = 1 <;> by_cases h3 : o = 1 <;> simp [h1, h2, h3]
+  by_cases h1 : i = 1 <;> by_cases h2 : m = 1 <;> simp [h1, h2]
 
-theorem matmulSumTest_spec (i m o d : Int) :
-    Gen.LinopAdjoint.matmulSumTest i m o d = decide (i = 1 ∧ (m ≠ 1 ∨ o ≠ 1)) := by
+theorem matmulSumTest_spec (i m d : Int) :
+    Gen.LinopAdjoint.matmulSumTest i m (max i m) d = decide (i = 1 ∧ (m ≠ 1 ∨ max i m ≠ 1)) := by
   unfold Gen.LinopAdjoint.matmulSumTest
-  by_cases h1 : i = 1 <;> by_cases h2 : m = 1 <;> by_cases h3 : o = 1 <;> simp [h1, h2, h3]
+  by_cases h1 : i = 1 <;> by_cases h2 : m = 1 <;> simp [h1, h2]
 
-/-- `_get_multiply_adjoint_sum_axes` as generated (test, zip ranges) = as modelled -/
-theorem multiplySumAxes_gen (osh ish msh : List Int) :
+/-- `_get_multiply_adjoint_sum_axes` as generated (test, zip ranges) = as modelled, on broadcast output shapes -/
+theorem multiplySumAxes_gen (osh ish msh : List Int)
+    (hmax : ∀ d, d < (C09.expandShapes ish msh).1.length →
+      getI osh d = max (getI (C09.expandShapes ish msh).1 d) (getI (C09.expandShapes ish msh).2 d)) :
     Gen.LinopAdjoint.multiplySumAxes osh ish msh = multiplySumAxes osh ish msh := by
-  unfold multiplySumAxes Gen.LinopAdjoint.multiplySumAxes
-  simp only [multiplySumTest_spec, decide_eq_true_eq]
-  rfl
+  unfold multiplySumAxes Gen.LinopAdjoint.multiplySumAxes Gen.LinopAdjoint.multiplySumDrop
+  simp only [Nat.sub_zero]
+  apply List.filterMap_congr
+  intro d hd
+  rw [hmax d (List.mem_range.mp hd), multiplySumTest_spec]
+  simp only [decide_eq_true_eq]
 
 /-- `_get_matmul_adjoint_sum_axes` as generated (test, the two trailing axes skipped) = as modelled -/
-theorem matmulSumAxes_gen (osh ish msh : List Int) :
+theorem matmulSumAxes_gen (osh ish msh : List Int)
+    (hmax : ∀ d, d < (C09.expandShapes ish msh).1.length - 2 →
+      getI osh d = max (getI (C09.expandShapes ish msh).1 d) (getI (C09.expandShapes ish msh).2 d)) :
     Gen.LinopAdjoint.matmulSumAxes osh ish msh = matmulSumAxes osh ish msh := by
-  unfold matmulSumAxes Gen.LinopAdjoint.matmulSumAxes
-  simp only [matmulSumTest_spec, decide_eq_true_eq]
+  unfold matmulSumAxes Gen.LinopAdjoint.matmulSumAxes Gen.LinopAdjoint.matmulSumDrop
+  apply List.filterMap_congr
+  intro d hd
+  rw [hmax d (List.mem_range.mp hd), matmulSumTest_spec]
+  simp only [decide_eq_true_eq]
   rfl
 
 theorem oshOf_sum (ish axes : List Int) (h : normAxes axes ish.length = axes) :
@@ -64,7 +76,8 @@ theorem adjLeaf_multiply_gen (ish msh : List Int) (mult : List α) (cj : Bool) (
   obtain ⟨osh, hb, hlen, rfl⟩ := (multiplySem_iff ish msh mult cj s0).mp hm
   have hlie : (C09.expandShapes ish msh).1.length = (C09.expandShapes ish msh).2.length := by
     rw [(expand_len ish msh).1, (expand_len ish msh).2]
-  obtain ⟨hol, _⟩ := bshape_spec hb hlie
+  obtain ⟨hol, hax⟩ := bshape_spec hb hlie
+  have hgen := multiplySumAxes_gen osh ish msh (fun d hd => (hax d hd).2)
   have hosh : ((C09.expandShapes ish msh).1.zip (C09.expandShapes ish msh).2).map (fun (i, m) => max i m) = osh :=
     (bshape_eq_zip hb).symm
   have hmlen : msh.length ≤ osh.length := by rw [hol, (expand_len ish msh).1]; omega
@@ -83,7 +96,7 @@ theorem adjLeaf_multiply_gen (ish msh : List Int) (mult : List α) (cj : Bool) (
   have hS : oshOf ofRat (.sum osh (multiplySumAxes osh ish msh) : Leaf α)
       = removeAxes (multiplySumAxes osh ish msh) osh :=
     oshOf_sum ofRat osh (multiplySumAxes osh ish msh) (by rw [multiplySumAxes_eq]; exact hnorm)
-  simp only [adjLeaf, Gen.LinopAdjoint.adjLeafGen, hosh, hself, hMo, multiplySumAxes_gen, hS]
+  simp only [adjLeaf, Gen.LinopAdjoint.adjLeafGen, hosh, hself, hMo, hgen, hS]
 
 /-- **MatMul** -/
 theorem adjLeaf_matmul_gen (ish msh : List Int) (mat : List α) (adjoint : Bool) (hv : MulValid ish msh)
@@ -92,13 +105,14 @@ theorem adjLeaf_matmul_gen (ish msh : List Int) (mat : List α) (adjoint : Bool)
       = Gen.LinopAdjoint.adjLeafGen (oshOf ofRat) (.matmul ish msh mat adjoint) := by
   obtain ⟨s0, hm⟩ := Option.isSome_iff_exists.mp hs
   simp only [leafSem0] at hm
-  obtain ⟨m, hM, _, hnorm, _⟩ := matmul_core false adjoint ish msh mat hv s0 hm
+  obtain ⟨m, hM, _, hnorm, _, _, _, _, _, _, hmax⟩ := matmul_core false adjoint ish msh mat hv s0 hm
+  have hgen := matmulSumAxes_gen s0.osh ish msh hmax
   have hself : oshOf ofRat (.matmul ish msh mat adjoint : Leaf α) = s0.osh := by
     simp only [oshOf, leafSem0, hm, Option.map_some, Option.getD_some]
   have hMo : oshOf ofRat (.matmul s0.osh msh mat (!adjoint) : Leaf α) = m.osh := by
     simp only [oshOf, leafSem0, hM, Option.map_some, Option.getD_some]
   have hS := oshOf_sum ofRat m.osh (matmulSumAxes s0.osh ish msh) hnorm
-  simp only [adjLeaf, Gen.LinopAdjoint.adjLeafGen, hm, hM, hself, hMo, matmulSumAxes_gen, hS]
+  simp only [adjLeaf, Gen.LinopAdjoint.adjLeafGen, hm, hM, hself, hMo, hgen, hS]
 
 /-- **RightMatMul** -/
 theorem adjLeaf_rmatmul_gen (ish msh : List Int) (mat : List α) (adjoint : Bool) (hv : MulValid ish msh)
@@ -107,13 +121,14 @@ theorem adjLeaf_rmatmul_gen (ish msh : List Int) (mat : List α) (adjoint : Bool
       = Gen.LinopAdjoint.adjLeafGen (oshOf ofRat) (.rmatmul ish msh mat adjoint) := by
   obtain ⟨s0, hm⟩ := Option.isSome_iff_exists.mp hs
   simp only [leafSem0] at hm
-  obtain ⟨m, hM, _, hnorm, _⟩ := matmul_core true adjoint ish msh mat hv s0 hm
+  obtain ⟨m, hM, _, hnorm, _, _, _, _, _, _, hmax⟩ := matmul_core true adjoint ish msh mat hv s0 hm
+  have hgen := matmulSumAxes_gen s0.osh ish msh hmax
   have hself : oshOf ofRat (.rmatmul ish msh mat adjoint : Leaf α) = s0.osh := by
     simp only [oshOf, leafSem0, hm, Option.map_some, Option.getD_some]
   have hMo : oshOf ofRat (.rmatmul s0.osh msh mat (!adjoint) : Leaf α) = m.osh := by
     simp only [oshOf, leafSem0, hM, Option.map_some, Option.getD_some]
   have hS := oshOf_sum ofRat m.osh (matmulSumAxes s0.osh ish msh) hnorm
-  simp only [adjLeaf, Gen.LinopAdjoint.adjLeafGen, hm, hM, hself, hMo, matmulSumAxes_gen, hS]
+  simp only [adjLeaf, Gen.LinopAdjoint.adjLeafGen, hm, hM, hself, hMo, hgen, hS]
 
 /-- **Every leaf class**: for valid parameters, the operator the model's `adjLeaf` builds is the one
     the translation of the class's `_adjoint_linop` builds (same class, same arguments). -/
